@@ -21,6 +21,10 @@ type Case struct {
 	Case   string         `json:"case"`
 	Files  []javagen.File `json:"files"`
 	Layout int            `json:"layout"`
+	// Bystander: a file of the directory that declares no class or interface (an enum, an annotation type, a
+	// package-info), visited first by the directory walk; it has no imports, is not judged, and must not keep the other
+	// files from being cleaned
+	Bystander string `json:"bystander"` // "" | enum | anntype | pkginfo
 }
 
 type ImportFact struct {
@@ -94,6 +98,17 @@ func one(raw json.RawMessage) interface{} {
 		}
 		rec.Texts = append(rec.Texts, t)
 		paths = append(paths, p)
+	}
+	switch c.Bystander {
+	case "enum":
+		os.MkdirAll(filepath.Join(root, "0first"), 0o755)
+		os.WriteFile(filepath.Join(root, "0first", "Colour.java"), []byte("package zero;\n\npublic enum Colour {\n    RED, GREEN\n}\n"), 0o644)
+	case "anntype":
+		os.MkdirAll(filepath.Join(root, "0first"), 0o755)
+		os.WriteFile(filepath.Join(root, "0first", "Marker.java"), []byte("package zero;\n\npublic @interface Marker {\n    String value() default \"\";\n}\n"), 0o644)
+	case "pkginfo":
+		os.MkdirAll(filepath.Join(root, "0first"), 0o755)
+		os.WriteFile(filepath.Join(root, "0first", "package-info.java"), []byte("/** docs */\npackage zero;\n"), 0o644)
 	}
 	rec.NFiles = len(paths)
 	// the directory walk decides the processing order; texts are reported in path order as well
@@ -198,6 +213,18 @@ func gen(seed int64, n int, tier string) []interface{} {
 					}
 				}
 			}
+			if r.Intn(4) == 0 { // an all-capitals class name used only as a static receiver
+				for j := range f.Unit.Members {
+					m := &f.Unit.Members[j]
+					if m.Kind == "method" && f.Unit.Kind == "class" {
+						nm := []string{"UUID", "URI", "A"}[r.Intn(3)]
+						e := javagen.Expr{K: "call", RecvKind: "static", Recv: nm, Callee: "create", Args: []javagen.Expr{}}
+						m.Body = append([]javagen.Stmt{{K: "decl", Type: "Object", Name: "capv", E: &e}}, m.Body...)
+						add(javagen.Import{Pkg: "java.net", Name: nm})
+						break
+					}
+				}
+			}
 			if r.Intn(3) == 0 { // static receivers the random bodies use
 				add(javagen.Import{Pkg: "java.util", Name: "Collections"})
 			}
@@ -240,7 +267,8 @@ func gen(seed int64, n int, tier string) []interface{} {
 				}
 			}
 		}
-		out = append(out, Case{Case: fmt.Sprintf("rand-%d-%d", seed, k), Files: p.Files, Layout: p.Layout})
+		out = append(out, Case{Case: fmt.Sprintf("rand-%d-%d", seed, k), Files: p.Files, Layout: p.Layout,
+			Bystander: []string{"", "", "", "enum", "anntype", "pkginfo"}[r.Intn(6)]})
 	}
 	return out
 }
